@@ -29,6 +29,8 @@ var c09Extra = []string{
 	"set f to transform if match == 'a' then set x to 1 else set x to 'q' end return x * 2 end replace all any with f",
 	"set f to transform set x to 1 if match == 'a' then set x to 'q' end return x / 1 end replace all any with f",
 	"set f to transform set x to 'q' loop set x to 1 break end return x - 'a' end replace all any with f",
+	"find all (at least 1 'a') = x ('b') = y 'c'", "find all (maybe 'a' 'b') = x (any) = y 'c'", "find all (at least 1 letter) = k '=' (at least 1 digit) = v",
+	"find all {('a' maybe s 'b') = x} = s", "find all ((any = x) (any = y)) = z 'c'", "find all (at least 1 ('a' or 'b')) = x (at least 1 'c') = y 'd'",
 	"replace all any with", "replace all any with nothing", "replace all (any = value) with value matchNumber", "replace all any with ''",
 	"find skip 0 any", "find top 0 any", "find last 0 any", "find skip 9 take 9 any", "find last 9 any", "find take 1 any find skip 1 any",
 	"find all @/a*/", "find all @/(a)?\\1/", "find all @/(a|)\\1b/", "find all @/a{0}/", "find all @/a{0,1}b/", "find all @/[a-c]+?/", "find all @/.$/", "find all @/^$/",
